@@ -351,8 +351,12 @@ impl Interp {
 
 /// Run a closure on a fresh OS thread (fresh thread-local syntax table) with a large stack.
 pub fn on_fresh_thread<T: Send + 'static>(f: impl FnOnce() -> T + Send + 'static) -> T {
+    on_fresh_thread_with_stack(256 << 20, f)
+}
+
+pub fn on_fresh_thread_with_stack<T: Send + 'static>(stack: usize, f: impl FnOnce() -> T + Send + 'static) -> T {
     std::thread::Builder::new()
-        .stack_size(256 << 20)
+        .stack_size(stack)
         .spawn(f)
         .expect("spawn")
         .join()
